@@ -49,6 +49,12 @@ C16_toks(p) ==
         /\ y.b = x.b /\ y.eb = x.eb /\ y.c = x.c /\ y.ec = x.ec
         /\ y.l = x.l /\ y.col = x.col /\ y.el = x.el /\ y.ecol = x.ecol
         /\ y.ps = x.ps /\ y.pe = x.pe )}
+\* "only the case of raw and unquoted text differs": string payloads are equal up to ASCII case
+C16_text(p) ==
+  {i \in 1..Min(Len(p.a.toks), Len(p.b.toks)) : LET x == p.a.toks[i]  y == p.b.toks[i] IN
+     x.pk = "s" /\ y.pk = "s" /\
+     ~( /\ Len(x.pt) = Len(y.pt)
+        /\ \A j \in 1..Len(x.pt) : Up(x.pt[j]) = Up(y.pt[j]) )}
 C16_errs(p) ==
   {i \in 1..Min(Len(p.a.errs), Len(p.b.errs)) : p.a.errs[i] # p.b.errs[i]}
 
